@@ -32,6 +32,8 @@ type store struct {
 	pending *node.KVSnapInfo // backup started (WaitReady returned), result not collected yet
 	pname   string
 	latest  uint64 // last value given to UpdateSnapshotState (kept in memory only by RockDB)
+	mc      node.MachineConfig
+	ci      common.IClusterInfo
 }
 
 var baseTs = time.Now().UnixNano()
@@ -39,7 +41,20 @@ var tsCounter int64
 
 func nextTs() int64 { tsCounter++; return baseTs + tsCounter*1000 }
 
+// cluster view of a follower: where the snapshot source keeps its data (same host, other data root)
+type fakeCluster struct{ infos []common.SnapshotSyncInfo }
+
+func (f *fakeCluster) GetClusterName() string { return "verif" }
+func (f *fakeCluster) GetSnapshotSyncInfo(fullNS string) ([]common.SnapshotSyncInfo, error) {
+	return f.infos, nil
+}
+func (f *fakeCluster) UpdateMeForNamespaceLeader(fullNS string) (bool, error) { return true, nil }
+
 func openStore(dir, eng string, keep int) (*store, error) {
+	return openStoreCluster(dir, eng, keep, node.MachineConfig{}, nil)
+}
+
+func openStoreCluster(dir, eng string, keep int, mc node.MachineConfig, ci common.IClusterInfo) (*store, error) {
 	opts := &node.KVOptions{
 		DataDir:          dir,
 		EngType:          rockredis.EngType,
@@ -50,7 +65,13 @@ func openStore(dir, eng string, keep int) (*store, error) {
 	opts.RockOpts.EngineType = eng
 	engine.FillDefaultOptions(&opts.RockOpts)
 	w := wait.New()
-	sm, err := node.NewStateMachine(opts, node.MachineConfig{}, 1, smx.NS+"-0", nil, w, nil)
+	var sm node.StateMachine
+	var err error
+	if ci == nil {
+		sm, err = node.NewStateMachine(opts, mc, 1, smx.NS+"-0", nil, w, nil)
+	} else {
+		sm, err = node.NewStateMachine(opts, mc, 1, smx.NS+"-0", ci, w, nil)
+	}
 	if err != nil {
 		return nil, err
 	}
@@ -60,7 +81,7 @@ func openStore(dir, eng string, keep int) (*store, error) {
 	if x.Store == nil || x.RN == nil {
 		return nil, fmt.Errorf("not a kv state machine")
 	}
-	return &store{dir: dir, eng: eng, keep: keep, x: x}, nil
+	return &store{dir: dir, eng: eng, keep: keep, x: x, mc: mc, ci: ci}, nil
 }
 
 func (s *store) close() {
@@ -73,7 +94,7 @@ func (s *store) close() {
 // reopen: Close waits for the backup goroutine (its purge included), then the same directory is opened again.
 func (s *store) reopen() error {
 	s.close()
-	n, err := openStore(s.dir, s.eng, s.keep)
+	n, err := openStoreCluster(s.dir, s.eng, s.keep, s.mc, s.ci)
 	if err != nil {
 		return err
 	}
@@ -167,6 +188,21 @@ func (s *store) restore(t, i uint64) string {
 		return "nobackup"
 	}
 	return "err"
+}
+
+// prepare = kvStoreSM.PrepareSnapshot: what a lagging replica does before RestoreFromSnapshot when it
+// has no local checkpoint of that (term,index): find a peer that has it, reuse, copy, mark the source.
+func (s *store) prepare(t, i uint64) string {
+	var snap raftpb.Snapshot
+	snap.Metadata.Term = t
+	snap.Metadata.Index = i
+	if err := s.x.SM.PrepareSnapshot(snap, make(chan struct{})); err != nil {
+		if strings.Contains(err.Error(), "no backup available") {
+			return "nosrc"
+		}
+		return "err"
+	}
+	return "ok"
 }
 
 func (s *store) localOK(t, i uint64) string {
